@@ -14,6 +14,8 @@ impl KStringCow {
     pub uninterp spec fn chars(&self) -> Seq<char>;
     #[verifier::external_body]
     pub fn into_owned(self) -> (r: KString) ensures r.view() == self.chars() { unimplemented!() }
+    #[verifier::external_body]
+    pub fn as_str(&self) -> (r: &str) ensures r@ == self.chars() { unimplemented!() }
 }
 /// the value model as this function sees it: a value has an identity and at most one of the collection views
 pub trait ValueView {
@@ -28,7 +30,8 @@ pub trait ValueView {
         ensures self.pairs_of() is Some <==> r is Some, r matches Some(o) ==> self.pairs_of() == Some(o.pairs());
     fn is_state(&self) -> (r: bool) ensures r == self.state_of();
     fn is_nil(&self) -> (r: bool) ensures r == self.nil_of();
-    fn to_value(&self) -> (r: Value) ensures r.vid() == self.vid_of();
+    fn to_value(&self) -> (r: Value) ensures r.vid() == self.vid_of(), r.nil() == self.nil_of();
+    fn is_object(&self) -> (r: bool) ensures r == (self.pairs_of() is Some);
     #[verifier::external_body]
     fn type_name(&self) -> &'static str { unimplemented!() }
 }
@@ -39,6 +42,15 @@ pub trait ArrayView {
 pub trait ObjectView {
     spec fn pairs(&self) -> Seq<(Seq<char>, VId)>;
     fn iter(&self) -> (r: PairsIter) ensures r.kv() == self.pairs();
+}
+/// `ObjectView::get` (extension trait, as in unit `find`: a method of ObjectView returning a ValueView would make the two
+/// trait declarations cyclic). No contract: the clauses of `compact` below do not depend on which elements are kept.
+pub trait ObjectMembers {
+    fn get(&self, key: &str) -> (r: Option<&'static dyn ValueView>);
+}
+impl ObjectMembers for &dyn ObjectView {
+    #[verifier::external_body]
+    fn get(&self, key: &str) -> (r: Option<&'static dyn ValueView>) { unimplemented!() }
 }
 /// `ArrayView::values()`: Box<dyn Iterator<Item = &dyn ValueView>> in the real code
 #[verifier::external_body] pub struct ValuesIter { _p: u8 }
@@ -92,6 +104,7 @@ impl IteratorSpecImpl for PairsIter {
 #[verifier::external_body] pub struct Value { _p: u8 }
 impl Value {
     pub uninterp spec fn vid(&self) -> VId;
+    pub uninterp spec fn nil(&self) -> bool;
     pub uninterp spec fn text(&self) -> Option<Seq<char>>;
     pub uninterp spec fn arr(&self) -> Option<Seq<Value>>;
     #[verifier::external_body]
@@ -160,6 +173,47 @@ impl ReverseFilter {
 || -> (e: Error)
 //@ closure 1 arg_of=map params=v
 |v: &'static dyn ValueView| -> (o: Value) ensures o.vid() == v.vid_of()
+//@ prologue
+    broadcast use axiom_values_items;
+//@ end
+}
+
+// ---------------- compact ----------------
+/// derive(FilterParameters) output for `PropertyArgs` (assumed: evaluation yields the optional property name or an error)
+pub struct PropertyArgs { _p: u8 }
+pub struct EvaluatedPropertyArgs { pub property: Option<KStringCow> }
+impl PropertyArgs {
+    #[verifier::external_body]
+    pub fn evaluate(&self, runtime: &dyn Runtime) -> (r: Result<EvaluatedPropertyArgs>) { unimplemented!() }
+}
+pub struct CompactFilter { pub args: PropertyArgs }
+impl CompactFilter {
+//@ item crates/lib/src/stdlib/filters/array.rs :: impl Filter for CompactFilter::evaluate
+//@ props C14 C02
+//@ sig fn evaluate(&self, input: &'static dyn ValueView, runtime: &dyn Runtime) -> (r: Result<Value>)
+//@ spec
+    ensures
+        input.array_of() is None ==> r is Err,                                                                         // [C14:compact_needs_an_array]
+        // "compact removes exactly the nils", the half the iterator contracts of vstd carry: whatever the result is,
+        // it is an array that holds no element the input does not hold, and is not longer
+        r matches Ok(v) ==> (input.array_of() matches Some(e) && v.arr() matches Some(a) && a.len() <= e.len()
+            && forall|i: int| 0 <= i < a.len() ==> e.contains((#[trigger] a[i]).vid())),                               // [C14:compact_invents_no_element]
+//@ closure 0 arg_of=ok_or_else params=
+|| -> (e: Error)
+//@ closure 1 arg_of=all params=v
+|v: &'static dyn ValueView| -> (b: bool) ensures b == (v.pairs_of() is Some)
+//@ closure 2 arg_of=filter params=v
+|v: &&'static dyn ValueView| -> (b: bool)
+//@ closure 3 arg_of=and_then params=obj
+|obj: &dyn ObjectView| -> (m: Option<&'static dyn ValueView>)
+//@ closure 4 arg_of=map params=v
+|v: &'static dyn ValueView| -> (b: bool) ensures b == v.nil_of()
+//@ closure 5 arg_of=map params=v
+|v: &'static dyn ValueView| -> (o: Value) ensures o.vid() == v.vid_of(), o.nil() == v.nil_of()
+//@ closure 6 arg_of=filter params=v
+|v: &&'static dyn ValueView| -> (b: bool) ensures b == !v.nil_of()
+//@ closure 7 arg_of=map params=v
+|v: &'static dyn ValueView| -> (o: Value) ensures o.vid() == v.vid_of(), o.nil() == v.nil_of()
 //@ prologue
     broadcast use axiom_values_items;
 //@ end
